@@ -35,7 +35,7 @@ def _response(req):
 
 class Endpoint:
     def __init__(self, kind, cert=None):
-        self.kind = kind  # "tls" | "plain" | "proxy"
+        self.kind = kind  # "tls" | "plain" | "proxy" | "redirect"
         self.cert = cert
         self.records = []
         self.accepted = 0
@@ -51,6 +51,16 @@ class Endpoint:
             self.ctx = ssl.SSLContext(ssl.PROTOCOL_TLS_SERVER)
             self.ctx.load_cert_chain(os.path.join(FIX, cert + ".both.pem"))
             self.ctx.sni_callback = self._sni
+        if kind == "redirect":
+            # answers a plain request with a redirect to `location`; a TLS client hello on the same port is served with `use_cert`
+            self.ctxs = {}
+            for c in ("good", "other", "rogue"):
+                cx = ssl.SSLContext(ssl.PROTOCOL_TLS_SERVER)
+                cx.load_cert_chain(os.path.join(FIX, c + ".both.pem"))
+                self.ctxs[c] = cx
+            self.location = b""
+            self.use_cert = "good"
+            self.keep_alive = True
         self._sni_name = None
         self.thread = threading.Thread(target=self._loop, daemon=True)
         self.thread.start()
@@ -98,6 +108,8 @@ class Endpoint:
         if self.kind == "proxy":
             return self._proxy(conn, rec)
         self._peek(conn, rec)
+        if self.kind == "redirect":
+            return self._redirect(conn, rec)
         if self.kind == "tls":
             self._sni_name = None
             try:
@@ -120,6 +132,50 @@ class Endpoint:
             try:
                 conn.close()
             except OSError:
+                pass
+
+    def _redirect(self, conn, rec):
+        if rec["first"].startswith(b"\x16\x03"):
+            tls = self.ctxs[self.use_cert].wrap_socket(conn, server_side=True)
+            rec["tls_ok"] = True
+            try:
+                req = _read_head(tls)
+                rec["request"] = req
+                if b"\r\n\r\n" in req:
+                    tls.sendall(_response(req))
+                    tls.settimeout(1.0)
+                    try:
+                        while tls.recv(4096):
+                            pass
+                    except (socket.timeout, OSError, ssl.SSLError):
+                        pass
+            finally:
+                try:
+                    tls.close()
+                except OSError:
+                    pass
+            return
+        req = _read_head(conn)
+        rec["plain_request"] = req
+        if b"\r\n\r\n" not in req:
+            return
+        conn.sendall(b"HTTP/1.1 302 Found\r\nLocation: " + self.location + b"\r\nContent-Length: 0\r\n"
+                     + (b"" if self.keep_alive else b"Connection: close\r\n") + b"\r\n")
+        if not self.keep_alive:
+            return
+        # the connection is left open (keep-alive): whatever else arrives on it in plain text is recorded
+        conn.settimeout(1.0)
+        try:
+            more = _read_head(conn)
+        except (socket.timeout, OSError):
+            more = b""
+        rec["second_plain"] = more
+        if b"\r\n\r\n" in more:
+            conn.sendall(_response(more))
+            try:
+                while conn.recv(4096):
+                    pass
+            except (socket.timeout, OSError):
                 pass
 
     def _proxy(self, conn, rec):
@@ -170,9 +226,10 @@ class Rig:
         self.tls = {c: Endpoint("tls", c) for c in ("good", "other", "rogue")}
         self.plain = Endpoint("plain")
         self.proxy = Endpoint("proxy")
+        self.redirect = Endpoint("redirect")
 
     def all(self):
-        return list(self.tls.values()) + [self.plain, self.proxy]
+        return list(self.tls.values()) + [self.plain, self.proxy, self.redirect]
 
     def settle(self, timeout=4.0):
         end = time.time() + timeout
